@@ -19,8 +19,56 @@ TRUSTED = ["rustc MIR lowering", "A7 orders of transitive permutation groups of 
 ASSUMPTIONS = ["input obeys the crystallographic restriction (asserted by the routine)"]
 
 
+def flatten_test(ctx, g):
+    """flattens_all(ct, cones): EVERY cone word has, in the quotient given by the table, exactly its cone degree as order (degree(ct, w) == deg;
+    `> 1` or `deg % order == 0` would accept a partly unwound 4- or 6-fold cone, and the cover keeps branching); degree() is the smallest
+    positive power of w that returns row 0 to itself"""
+    ctx.clauses.append("flattens_all: every cone word has exactly its cone degree as order in the quotient (T9)")
+    b = ctx.body("delaney3d::flattens_all")
+    ctx.scan(ctx.facts.with_closures(b.name))
+    ct, cones = ("param", 1, b.debug.get(1, "")), ("param", 2, b.debug.get(2, ""))
+    alls = list(b.calls("Iterator::all"))
+    ok = False
+    det = "no all(..) over the cones"
+    for bi, t in alls[:1]:
+        src = norm(b.origin(t["args"][0]), g)
+        src = norm(b.def_origin(src), g) if src[0] == "local" else src
+        res = closure_result(ctx.facts, b.origin(t["args"][1]), g)
+        el = ("param", 2, "")
+        want = ("binop", "Eq", ("call", "delaney3d::degree", (ct, ("field", el, "0"))), ("field", el, "1"))
+        want2 = ("binop", "Eq", want[3], want[2])
+        oksrc = contains(src, lambda y: y == cones)
+        ok = oksrc and res is not None and strip(res) in (want, want2) and ret_origin(b, g)[0] == "call" and ret_origin(b, g)[1].endswith("Iterator::all")
+        det = "the test applied to each cone is %s over %s" % (show(res, 1)[:70] if res else None, show(src, 1)[:40])
+    ctx.ob("T9-flattens-all", b.name, "all(degree(ct, w) == deg)", "ok" if ok else "violation",
+           "every cone (w, deg) of the list satisfies degree(ct, w) == deg" if ok else
+           "flattens_all is not `every cone word has exactly its degree as order` (%s): a cone of composite degree that is only partly unwound passes and the cover keeps branching" % det)
+    # degree(): first positive i with row_0 . w^i == row 0
+    d = ctx.body("delaney3d::degree")
+    ctx.scan(ctx.facts.with_closures(d.name))
+    r = ret_origin(d, g)
+    for _ in range(6):          # the iterator chain is built in temporaries: follow them
+        loc = [x for x in subterms(r) if x[0] == "local"]
+        if not loc:
+            break
+        r = map_term(r, lambda x: norm(d.def_origin(x), g) if x[0] == "local" and norm(d.def_origin(x), g) != x else None)
+    calls = [x[1].split("::")[-1] for x in subterms(r) if x[0] == "call"]
+    sk = [x for x in subterms(r) if is_call(x, "Iterator::skip")]
+    oks = bool(sk) and all(strip(x[2][1]) == ("int", 1) for x in sk) and any(is_call(x, "iter::successors") for x in subterms(r)) and any(is_call(x, "skip_while") for x in subterms(r))
+    seed_ok = any(is_call(x, "iter::successors") and strip(x[2][0]) == ("agg", "adt:std::option::Option::Some", (("agg", "tuple", (("int", 0), ("int", 0))),)) for x in subterms(r))
+    sw_ok = False
+    for bi, t in d.calls("Iterator::skip_while"):
+        res = closure_result(ctx.facts, d.origin(t["args"][1]), g)
+        if res is not None and strip(res)[0] == "binop" and strip(res)[1] == "Ne" and ("int", 0) in strip(res)[2:]:
+            sw_ok = True
+    ctx.ob("T9-flattens-all", d.name, "first i >= 1 with w^i fixing row 0", "ok" if oks and seed_ok and sw_ok else "violation",
+           "degree = index of the first return to row 0 after skipping the start (0, 0)" if oks and seed_ok and sw_ok else
+           "degree() is not `successors(Some((0, 0)), apply w).skip(1).skip_while(row != 0).next()` (skip 1: %s, start (0, 0): %s, skip_while row != 0: %s)" % (oks, seed_ok, sw_ok))
+
+
 def run(ctx):
     g = ctx.facts.getters()
+    flatten_test(ctx, g)
     two_d(ctx, g)
     three_d(ctx, g)
     candidates(ctx, g)
